@@ -1,18 +1,25 @@
 """C14 — composite package descriptors are normalised without losing dependencies.
 
 Decided from compiler facts, on meaning rather than spelling (rules/C14_helpers.py):
-  R1 libcnb: replacement  case analysis of buildpack_id_from_libcnb_dependency / replace_libcnb_uri (combinator chains,
+All of R1-R4 are stated on normalize_package_descriptor (the entry point package.rs calls) in normal form: its success
+payload with private helpers inlined is a PackageDescriptor whose dependency list is made by two element-by-element passes
+over the input's list.  Whether a pass is a function from descriptor to descriptor, a function over the bare list, a stage
+of one combinator pipeline, or a push loop in a helper makes no difference.
+  R1 libcnb: replacement  case analysis of buildpack_id_from_libcnb_dependency and of the element mapping of pass 1 (a
+                          function like replace_libcnb_uri or the closure handed to `map`; combinator chains,
                           `match`, `let .. else`, `?` and private helpers give the same cases): the id is parsed from the
                           URI path exactly when the scheme is present and == "libcnb"; a parse error is returned and nothing
                           else happens without a successful parse; the id is looked up in the id->path map;
                           missing => Err(MissingBuildpackPath(id)); found => dependency built from that path
-  R2 one-to-one           the `dependencies` of the success payload (normal form: private helpers inlined) are made from
-                          the input's element by element: an iterator pipeline in which only `map` occurs (no
+  R2 one-to-one           the `dependencies` of the success payload are made from the input's by exactly two passes, each
+                          element by element: an iterator pipeline in which only `map` occurs (no
                           filter/skip/take/rev/dedup/flat_map), or a fresh Vec with exactly one push per iteration of a
-                          `for` loop over the input list that reaches success only through iterator exhaustion
+                          `for` loop over the list that reaches success only through iterator exhaustion; pass 1 starts
+                          from the input's list, pass 2 from the (complete) list pass 1 made
   R3 verbatim arms        non-libcnb dependencies (pass 1) and dependencies with any scheme (pass 2) are returned
                           as a clone of the input; only scheme-less URIs are rewritten (cases of the element mapping)
-  R4 struct update        both result descriptors take `buildpack` and `platform` from the input descriptor
+  R4 struct update        the result descriptor takes `buildpack` and `platform` from the input descriptor (through every
+                          intermediate descriptor a pass may build) and its dependencies are the list made by the passes
   R5 absolutise           rewritten only when relative (is_relative == !is_absolute), joined onto the parent of the source
                           package.toml; normalize_path per-component effects (for loop or fold/for_each closure):
                           CurDir -> nothing, ParentDir -> pop, Normal / RootDir -> push
@@ -23,10 +30,12 @@ from .lib.discard import result_fates, verdict
 from .lib.effects import Effects, guards_of
 from .lib.paths import strip
 from .lib.value import canon, vstr, walk
-from .C14_helpers import Cases, NEG, POS, mentions, sequence_of, shape_sig, shape_vals
+from .C14_helpers import Cases, NEG, Normal, POS, chain_of, mentions, shape_sig, shape_vals
 
 PD = 'libcnb_package::package_descriptor::'
 UTIL = 'libcnb_package::util::'
+# the two passes over the dependency list, under the names the rule instances have always carried
+PASSES = ('replace_libcnb_uris', 'absolutize_dependency_paths')
 
 
 def is_param(v, fn, i):
@@ -66,55 +75,72 @@ def run(ctx, rep):
         rep.rule(r, d)
     rep.not_decided = ['denotation of the normalised path string (URI escaping by uriparse)', 'that the written file parses again (toml)']
     w = lambda f: '%s:%d' % (f.file, f.line)
-    RU, IDF = PD + 'replace_libcnb_uri', PD + 'buildpack_id_from_libcnb_dependency'
-    # ---- R2 / R4 for both passes --------------------------------------------------------------------------
-    # Stated on the success payload of the pass in normal form (private helpers inlined, `x.map(f)` / `Ok(f(x?))` alike):
-    # a PackageDescriptor whose `dependencies` are made element by element from the input's (iterator pipeline or push loop).
-    seqs = {}
-    for name, elem_fn in (('replace_libcnb_uris', RU), ('absolutize_dependency_paths', None)):
-        f = prog.fn(PD + name)
-        rep.analysed(f)
-        nf = sl.mk_unwrap(sl.inline_deep(sl.local(f, 0), keep=(RU, IDF, UTIL + 'absolutize_path')), 1)
-        bv = strip(nf)
-        fl = dict(bv[3]) if bv[0] == 'agg' and (bv[1] or '').endswith('PackageDescriptor') else {}
-        seq = sequence_of(prog, sl, f, fl['dependencies']) if 'dependencies' in fl else None
-        seqs[name] = seq
-        src = strip(seq.coll) if seq is not None else ('unknown',)
-        shape = seq is not None and seq.one_to_one and src[0] == 'field' and src[2] == 'dependencies' and is_param(src[1], f, 0)
-        rep.check(shape, 'R2', name, w(f), 'one output dependency per input dependency, in order (%s)' % (seq.kind if seq else '-'),
-                  '%s does not map the dependency list one-to-one: %s over %s' % (name, (seq.why or seq.kind) if seq is not None else 'result is ' + vstr(bv)[:80], vstr(src)[:60]))
-        src_of = lambda x: strip(x)[0] == 'field' and is_param(strip(x)[1], f, 0) and strip(x)[2]
-        good = bool(fl) and src_of(fl.get('buildpack', ('unknown',))) == 'buildpack' and src_of(fl.get('platform', ('unknown',))) == 'platform' and \
-            seq is not None and seq.kind is not None
-        rep.check(good, 'R4', name, w(f), 'buildpack and platform copied from the input, dependencies = mapped list', '%s does not preserve buildpack/platform' % name)
-        if elem_fn:
-            ev = strip(seq.mapped) if seq is not None and seq.mapped is not None else ('unknown',)
-            rep.check(ev[0] == 'call' and ev[1] == elem_fn and canon(ev[2][0]) == canon(seq.elem), 'R2', name + '/element', w(f),
-                      'each element -> %s(element)' % elem_fn.split('::')[-1], 'element mapping is ' + vstr(ev)[:100])
-    # ---- R1 / R3 : replace_libcnb_uri -----------------------------------------------------------------------
-    # Case analysis of the function (C14_helpers.Cases): which results are produced under which decisions, whether the code
-    # says `opt.map_or(Ok(dep.clone()), |id| ..)`, `let Some(id) = opt else { return Ok(dep.clone()) }` or `match`.
-    ru = prog.fn(RU)
-    rep.analysed(ru)
-    for g in prog.closures_of(ru):
+    NPD, IDF, AP = PD + 'normalize_package_descriptor', PD + 'buildpack_id_from_libcnb_dependency', UTIL + 'absolutize_path'
+    # ---- R2 / R4: the normalised descriptor as a whole ------------------------------------------------------------
+    # Stated on the success payload of normalize_package_descriptor in normal form (C14_helpers.Normal: helpers inlined,
+    # `x.map(f)` / `Ok(f(x?))` / and_then closures alike): a PackageDescriptor whose buildpack / platform are the input's
+    # and whose `dependencies` are made from the input's by two element-by-element passes (iterator pipeline or push loop
+    # each), the first one rewriting libcnb: URIs, the second one absolutising paths.  It does not matter whether a pass is
+    # a function of its own taking and returning a descriptor, a function over the bare list, or a stage of one pipeline.
+    npd = prog.fn(NPD)
+    rep.analysed(npd)
+    N = Normal(prog, sl, keep=(IDF, AP, UTIL + 'normalize_path'))
+    bv = strip(N.payload(npd))
+    fl = dict(bv[3]) if bv[0] == 'agg' and (bv[1] or '').endswith('PackageDescriptor') else {}
+    chain, source = chain_of(prog, sl, N, npd, fl['dependencies']) if 'dependencies' in fl else ([], ('unknown',))
+    for gp in N.entered:
+        rep.analysed(prog.fns[gp])
+        for g in prog.closures_of(prog.fns[gp]):
+            rep.analysed(g)
+    for g in prog.closures_of(npd):
         rep.analysed(g)
-    cs = Cases(prog, sl, ru, stop=(IDF,)).fn_cases(ru)
+    passes = list(reversed(chain))
+    src = strip(source)
+    from_input = src[0] == 'field' and src[2] == 'dependencies' and is_param(src[1], npd, 0)
+    src_of = lambda x: strip(x)[0] == 'field' and is_param(strip(x)[1], npd, 0) and strip(x)[2]
+    fields_ok = bool(fl) and src_of(fl.get('buildpack', ('unknown',))) == 'buildpack' and src_of(fl.get('platform', ('unknown',))) == 'platform'
+    seqs = {}
+    for i, name in enumerate(PASSES):
+        seq = seqs[name] = passes[i] if i < len(passes) else None
+        # pass 1 starts from the input's list; pass 2 from the list made by pass 1 (chain_of), and there is no third pass
+        shape = seq is not None and seq.one_to_one and len(passes) == len(PASSES) and from_input
+        why = 'result is ' + vstr(bv)[:80]
+        if seq is not None:
+            why = seq.why or ('%d passes over %s' % (len(passes), vstr(src)[:60]) if seq.one_to_one else seq.kind)
+        rep.check(shape, 'R2', name, w(npd), 'one output dependency per input dependency, in order (%s)' % (seq.kind if seq else '-'),
+                  '%s does not map the dependency list one-to-one: %s' % (name, why))
+        rep.check(fields_ok and seq is not None and seq.kind is not None, 'R4', name, w(npd),
+                  'buildpack and platform copied from the input, dependencies = mapped list', '%s does not preserve buildpack/platform' % name)
+    same = lambda a, b: canon(strip(a)) == canon(strip(b))
+    # ---- R1 / R3 : libcnb: replacement (element mapping of pass 1) -------------------------------------------------
+    # Case analysis of the mapping applied to one element (C14_helpers.Cases): which results are produced under which
+    # decisions, whether the code says `opt.map_or(Ok(dep.clone()), |id| ..)`, `let Some(id) = opt else { return Ok(dep.clone()) }`
+    # or `match`, in a function of its own or in the closure handed to `map`.
+    s1 = seqs[PASSES[0]]
+    elem = s1.elem if s1 is not None and s1.elem is not None else ('unknown', 'element')
+    is_elem = lambda x: same(x, elem)
+    cs = []
+    if s1 is not None and (s1.closure is not None or s1.mapped is not None):
+        C1 = Cases(prog, sl, npd, stop=(IDF,))
+        cs = C1.call_cases(s1.closure, [elem]) if s1.closure is not None else C1.value_cases(strip(s1.mapped), {})
     idcs = {canon(x) for x in atoms_values(cs) if x[0] == 'call' and x[1] == IDF}
     idc = next(iter(idcs)) if len(idcs) == 1 else None
-    id_ok = idc is not None and len(idc[2]) == 1 and is_param(idc[2][0], ru, 0)
+    id_ok = idc is not None and len(idc[2]) == 1 and is_elem(idc[2][0])
+    rep.check(id_ok, 'R2', PASSES[0] + '/element', w(npd), 'each element -> its libcnb: replacement (a function of that element)',
+              'element mapping is ' + (show(cs) if cs else vstr(s1.mapped if s1 is not None and s1.mapped is not None else ('unknown',))[:100]))
     failed = [c for c in cs if ('is', idc, NEG) in c[0]]
     parsed = [c for c in cs if ('is', idc, NEG) not in c[0]]
     ok = id_ok and bool(failed) and bool(parsed) and all(sh[0] == 'Err' and mentions(sh, ('unwrap_err', idc)) for _, sh in failed) and \
         all(('is', idc, POS) in atoms for atoms, _ in parsed)
-    rep.check(ok, 'R1', 'id-parse-propagated', w(ru), 'id parse error propagated; everything else happens only after a successful parse', 'replace_libcnb_uri: ' + show(cs))
+    rep.check(ok, 'R1', 'id-parse-propagated', w(npd), 'id parse error propagated; everything else happens only after a successful parse', 'libcnb: replacement: ' + show(cs))
     ido = ('unwrap', idc)
     idv = ('unwrap', ido)
     other = [c for c in cs if ('is', ido, NEG) in c[0]]
-    good_verbatim = id_ok and bool(other) and all(sh[0] == 'Ok' and sh[1][0] == 'val' and is_param(sh[1][1], ru, 0) for _, sh in other)
-    rep.check(good_verbatim, 'R3', 'pass1/non-libcnb', w(ru), 'non-libcnb dependency => Ok(clone of the input)', 'non-libcnb dependencies are not copied verbatim: ' + show(other or cs))
+    good_verbatim = id_ok and bool(other) and all(sh[0] == 'Ok' and sh[1][0] == 'val' and is_elem(sh[1][1]) for _, sh in other)
+    rep.check(good_verbatim, 'R3', 'pass1/non-libcnb', w(npd), 'non-libcnb dependency => Ok(clone of the input)', 'non-libcnb dependencies are not copied verbatim: ' + show(other or cs))
     libcnb = [c for c in cs if ('is', ido, POS) in c[0]]
     gets = {canon(x) for x in atoms_values(libcnb) if x[0] == 'call' and x[1].endswith('BTreeMap::<K, V, A>::get') and len(x[2]) == 2
-            and is_param(x[2][0], ru, 1) and canon(x[2][1]) == idv}
+            and is_param(x[2][0], npd, 2) and canon(x[2][1]) == idv}
     get = next(iter(gets)) if len(gets) == 1 else None
     missing, found, stray = [], [], []
     for atoms, sh in libcnb:
@@ -127,7 +153,7 @@ def run(ctx, rep):
         else:
             stray.append(sh)
     good_lookup = id_ok and bool(missing) and bool(found) and all(missing) and all(found) and not stray
-    rep.check(good_lookup, 'R1', 'lookup-or-error', w(ru), 'id looked up in the map; missing => Err(MissingBuildpackPath(id)) propagated; found => dependency from that path',
+    rep.check(good_lookup, 'R1', 'lookup-or-error', w(npd), 'id looked up in the map; missing => Err(MissingBuildpackPath(id)) propagated; found => dependency from that path',
               'libcnb: replacement is not map.get(id) -> MissingBuildpackPath(id) on absence -> try_from(path): ' + show(libcnb or cs))
     # scheme test: the id is parsed from the URI path exactly when the scheme is present and equals "libcnb"
     idf = prog.fn(IDF)
@@ -167,36 +193,35 @@ def run(ctx, rep):
             kinds['other'].append(False)
     ok = sch is not None and prs is not None and not kinds['other'] and all(kinds[k] and all(kinds[k]) for k in ('some', 'none', 'err'))
     rep.check(ok, 'R1', 'scheme-test', w(idf), 'scheme present and == "libcnb" => Ok(Some(path.parse()?)); otherwise Ok(None)', 'libcnb: detection is ' + show(ics))
-    # ---- R3 / R5 : absolutize -------------------------------------------------------------------------------
-    ad = prog.fn(PD + 'absolutize_dependency_paths')
-    seq = seqs['absolutize_dependency_paths']
+    # ---- R3 / R5 : absolutize (element mapping of pass 2) -------------------------------------------------------------
+    seq = seqs[PASSES[1]]
     table = {}
     if seq is not None and seq.mapped is not None:
-        C2 = Cases(prog, sl, ad, stop=(UTIL + 'absolutize_path',))
-        for g in prog.closures_of(ad):
-            rep.analysed(g)
+        C2 = Cases(prog, sl, npd, stop=(AP,))
         ecs = C2.call_cases(seq.closure, [seq.elem]) if seq.closure is not None else C2.value_cases(strip(seq.mapped), {})
         for atoms, sh in ecs:
             sc = [a for a in atoms if a[0] == 'is' and a[2] in (POS, NEG) and a[1][0] == 'call' and a[1][1].endswith('::scheme')]
             arm = {POS: 'Some', NEG: 'None'}[sc[-1][2]] if sc and len({a[2] for a in sc}) == 1 else '?'
             subj_ok = bool(sc) and all(len(a[1][2]) == 1 and strip(a[1][2][0])[0] == 'field' and strip(a[1][2][0])[2] == 'uri' and
-                                      canon(strip(a[1][2][0])[1]) == canon(seq.elem) for a in sc)
+                                      same(strip(a[1][2][0])[1], seq.elem) for a in sc)
             if sh[0] == 'Ok' and sh[1][0] == 'val':
-                row = ('verbatim', canon(sh[1][1]) == canon(seq.elem), subj_ok)
+                row = ('verbatim', same(sh[1][1], seq.elem), subj_ok)
             elif sh[0] == 'val' and strip(sh[1])[0] == 'call' and strip(sh[1])[1].endswith('try_from'):
                 ap = strip(strip(sh[1])[2][0])
-                good = ap[0] == 'call' and ap[1] == UTIL + 'absolutize_path'
+                good = ap[0] == 'call' and ap[1] == AP
                 if good:
                     pth, par = strip(ap[2][0]), strip(ap[2][1])
-                    good = any(x[0] == 'call' and x[1].endswith('::path') for x in walk(pth)) and \
-                        any(x[0] == 'call' and x[1] == 'std::path::Path::parent' and is_param(x[2][0], ad, 1) for x in walk(par))
+                    # the path of this element's URI, against the parent of the source package.toml
+                    good = any(x[0] == 'call' and x[1].endswith('::path') and len(x[2]) == 1 and strip(x[2][0])[0] == 'field' and
+                               strip(x[2][0])[2] == 'uri' and same(strip(x[2][0])[1], seq.elem) for x in walk(pth)) and \
+                        any(x[0] == 'call' and x[1] == 'std::path::Path::parent' and is_param(x[2][0], npd, 1) for x in walk(par))
                 row = ('absolutize', good, subj_ok)
             else:
                 row = (shape_sig(sh), False, subj_ok)
             table[arm] = row if arm not in table or table[arm] == row else ('conflict', False, False)
     ok = table == {'None': ('absolutize', True, True), 'Some': ('verbatim', True, True)}
     rep.extra['absolutize_arms'] = {k: list(v) for k, v in table.items()}
-    rep.check(ok, 'R3', 'pass2/scheme-arms', w(ad), 'scheme-less => absolutize(path, parent of package.toml); any scheme => verbatim clone',
+    rep.check(ok, 'R3', 'pass2/scheme-arms', w(npd), 'scheme-less => absolutize(path, parent of package.toml); any scheme => verbatim clone',
               'absolutisation arms: %s' % rep.extra.get('absolutize_arms'))
     ap = prog.fn(UTIL + 'absolutize_path')
     rep.analysed(ap)
